@@ -147,6 +147,10 @@ class ScalarFunction:
                 self.g = approx_derivative(
                     fun_wrapped, self.x, f0=self.f, **finite_diff_options
                 )
+                # a variable fixed by lb == ub has a zero-length stencil (0 / 0 = nan);
+                # it cannot move, so its derivative is irrelevant: report 0.
+                lb, ub = finite_diff_options["bounds"]
+                self.g[np.broadcast_to(np.equal(lb, ub), self.g.shape)] = 0.0
 
         self._update_grad_impl = update_grad
 
